@@ -364,15 +364,15 @@ private theorem accepted_core (S : SigScheme)
     gate of SignJSON), so the hypothesis `hsign` already excludes them (`signed_body_strict`). -/
 def BodyOk (raw : Bytes) : Prop := utf8Valid raw = true
 
-/-- A request that `sign` accepted has a body the gate lets through: it parses, every string is well formed (hence no
-    lone surrogate escape), no object has two members with one name. -/
+/-- A request that `sign` accepted has a body SignJSON's gate lets through: it parses, its surrogate escapes are paired
+    (hence no lone one), no object has two members with one name. -/
 theorem signed_body_strict {f0 f : Fields} {serverName keyID : Str} {mk : JVal → Str}
     (hsign : sign f0 serverName keyID mk = .ok f) {raw : Bytes} (hc0 : f0.content = some raw) (hne : raw ≠ []) :
-    ∃ p, parse raw = some p ∧ p.wellFormed = true ∧ p.surrogatesOk = true ∧ p.noDupKeys = true := by
+    ∃ p, parse raw = some p ∧ V.Sign.pairedOk p = true ∧ p.surrogatesOk = true ∧ p.noDupKeys = true := by
   obtain ⟨_, _, _, _, _, _, _, _, _, _, _, hstrict⟩ := sign_shape f0 f serverName keyID mk hsign
   rw [hc0] at hstrict
-  obtain ⟨p, hp, hw, hd⟩ := (contentStrict_some hne).mp hstrict
-  exact ⟨p, hp, hw, surrogatesOk_of_wellFormed p hw, hd⟩
+  obtain ⟨p, hp, hw, hd⟩ := (contentSignStrict_some hne).mp hstrict
+  exact ⟨p, hp, hw, surrogatesOk_of_paired p hw, hd⟩
 
 /-- A request (NewFederationRequest + optional SetContent = `f0`, not yet signed) signed by its origin with a
     key the receiver holds as valid at the time of receipt, rendered by HTTPRequest and delivered unchanged, is
@@ -525,9 +525,11 @@ theorem ambiguous_body_refused (req : HttpReq) (now : Millis) (destination : Str
   intro a _ obj sigs
   exact gated_never_accepts req.body h table dbError wc check a.origin now obj sigs
 
-/-- **Sign refuses such a body too**, and a method / URI / origin / destination that is not valid UTF-8. -/
+/-- **Sign refuses such a body too** (duplicate names, lone surrogate escapes; a body that is merely not valid UTF-8 is
+    signed as before and refused by the receiver: `refused_if` (6)), and a method / URI / origin / destination that is not
+    valid UTF-8. -/
 theorem sign_refuses (f0 : Fields) (serverName keyID : Str) (mk : JVal → Str)
-    (h : contentStrict f0.content = false ∨ fieldsUTF8 { f0 with origin := serverName } = false) :
+    (h : contentSignStrict f0.content = false ∨ fieldsUTF8 { f0 with origin := serverName } = false) :
     ∀ f, sign f0 serverName keyID mk ≠ .ok f := by
   intro f hs
   rcases h with h | h
